@@ -98,6 +98,16 @@ def run(repo, chk):
     aps = sorted(norm(c.func) for c in ast.walk(ca.node) if isinstance(c, ast.Call) and isinstance(c.func, ast.Attribute) and c.func.attr == "append")
     chk.ob("R07.3", "interpret.Capture.accum:appends-name-and-value", aps == ["self.names.append", "self.values.append"], ca.where, "accum appends to names and values (order of binding is kept)")
 
+    ia = repo.func("interpret.Interactor.interact")
+    g2 = CFG(ia.node, lambda s_: isinstance(s_, (ast.Raise, ast.Assert)))
+    tests = [n for n in g2.nodes if n.kind == "test" and norm(n.stmt.test).endswith("is ABSENT") and "not" not in norm(n.stmt.test)]
+    logs = g2.find(lambda n: n.kind == "stmt" and ".log(" in n.text())
+    ok = bool(tests) and bool(logs) and all(not g2.path_exists(g2.entry, l, avoid=tests) for l in logs) and \
+        all(isinstance(m.stmt, ast.Raise) for t in tests for m, lab in t.succ if lab == "t")
+    chk.ob("R07.3", "interpret.Interactor.interact:only-bound-values-are-accumulated", ok, ia.where,
+           "a value is logged into the accumulators only after the `is ABSENT` guard: a declared-but-unset variable is never recorded as a value, "
+           "so the completeness test of Total.close cannot be satisfied by a variable that was never bound")
+
     # ---------------- R07.4
     tc = repo.func("interpret.Total.close")
     g_root = [n for n in walk_local(tc.node) if isinstance(n, ast.If) and norm(n.test) == "self.parent is None"]
